@@ -30,6 +30,39 @@ Theorem C04_integer_constants : forall z, pr0 (Const (NInt z)).
 Proof. intros z. cbn [pr0]. exists (z <? 0)%Z, (show_nat (Z.abs z)), (NInt (Z.abs z)). apply const_text_int. Qed.
 Print Assumptions C04_integer_constants.
 
+(* every constant the printer can print (finite; at most 40 decimal places) satisfies the constant condition *)
+Theorem C04_constants : forall c, show_num c <> None -> pr0 (Const c).
+Proof. intros c H. cbn [pr0]. now apply const_text_all. Qed.
+Print Assumptions C04_constants.
+
+(* the structural form of the class: '=' on the left spine; below it no '=', factorial of literals, letters, constants that have a text *)
+Fixpoint shape0 (e:expr) : Prop :=
+  match e with
+  | Const c => show_num c <> None
+  | Var v => Lexer.is_alpha v = true
+  | Un UFact c => (exists n, c = Const n) /\ shape0 c
+  | Un _ c => shape0 c
+  | Bin KEq _ _ => False
+  | Bin _ l r => shape0 l /\ shape0 r end.
+Fixpoint shape (e:expr) : Prop := match e with Bin KEq l r => shape l /\ shape0 r | _ => shape0 e end.
+Lemma shape0_pr0 e : shape0 e -> pr0 e.
+Proof.
+  induction e as [c|v|u c IH|k l IHl r IHr]; cbn [shape0 pr0].
+  - apply const_text_all.
+  - auto.
+  - destruct u; try (intros [A B]; split); auto.
+  - destruct k; try tauto.
+Qed.
+Lemma shape_printable e : shape e -> printable e.
+Proof.
+  induction e as [c|v|u c IH|k l IHl r IHr]; try (intros H; apply pr0_printable, shape0_pr0; exact H).
+  destruct k; try (intros H; apply pr0_printable, shape0_pr0; exact H). cbn [shape printable]. intros [A B]. split; [auto|now apply shape0_pr0].
+Qed.
+Theorem C04_structural : forall e, shape e ->
+  exists s e', show_top e = Some s /\ parse s = Ok e' /\ (forall rho, den rho e' = den rho e) /\ vars e' = vars e.
+Proof. intros e H. apply C04_print_then_parse. now apply shape_printable. Qed.
+Print Assumptions C04_structural.
+
 (* equations: the re-parsed equation has the same solutions *)
 Theorem C04_equation_solutions : forall l r, printable (Bin KEq l r) ->
   exists s e', show_top (Bin KEq l r) = Some s /\ parse s = Ok e' /\ forall rho v, den rho e' = Some v <-> den rho (Bin KEq l r) = Some v.
